@@ -43,7 +43,7 @@ TOL = 1e-9
 HALF = 0.5 * np.pi
 MARGIN_MIN = 1e-11
 
-KINDS = ["random", "mono+", "mono-", "zigzag", "near_quarter", "repeated", "resets", "landing", "tiny", "mixed"]
+KINDS = ["random", "mono+", "mono-", "zigzag", "near_quarter", "repeated", "resets", "landing", "tiny", "mixed", "exact_quarters"]
 TOPOS = ["origin-body", "frame-body", "body-body", "movingframe-body"]
 
 
@@ -147,6 +147,15 @@ def _goto(phi, target):
 
 
 def _history(kind, rng, n):
+    if kind == "exact_quarters":
+        # eighth turns forwards and backwards: every second configuration is an EXACT multiple of a quarter turn (built from a
+        # whole-number quaternion about a coordinate axis of a coordinate-aligned joint, see _config)
+        out, sgn = [], (1.0 if rng.random() < 0.5 else -1.0)
+        while len(out) < min(n, 160):
+            run = int(rng.integers(3, 30))
+            out += [sgn * 0.25 * np.pi] * run
+            sgn = -sgn if rng.random() < 0.6 else sgn
+        return out
     if kind == "random":
         return [_clip(rng.uniform(-HALF, HALF)) for _ in range(n)]
     if kind in ("mono+", "mono-"):
@@ -253,7 +262,11 @@ def _build(spec, rng, ctx):
     from cardillo.solver import SolverOptions
 
     topo, axis = spec["topo"], spec["axis"]
+    exact = spec["kind"] == "exact_quarters"
+    if exact:
+        topo = "origin-body"
     rig = _Rig()
+    rig.exact = exact
     rig.topo, rig.axis = topo, axis
     mag = _loguniform(rng, 1e-2, 1e2)
     system = System()
@@ -293,13 +306,15 @@ def _build(spec, rng, ctx):
                           name="body1")
         sub1 = body1
     rig.R2_0, rig.r2_0 = _rand_rot(rng), rng.normal(size=3) * mag
-    if rng.random() < 0.15:
+    if rng.random() < 0.15 or exact:
         rig.R2_0 = rig.R1_0.copy()  # aligned bodies
     body2 = RigidBody(float(rng.uniform(0.5, 2)), theta, _pose_q(rig.r2_0, rig.R2_0, flip=rng.random() < 0.5),
                       name="body2")
 
     # joint definition
     r = rng.random()
+    if exact:
+        r = 0.35 * rng.random() + 0.05      # default (the origin's basis) or identity: a coordinate-aligned joint
     if r < 0.3:
         A_IJ0, rig.cls_A = None, "A_IJ0:default(subsystem1)"
         A_eff = rig.R1_0
@@ -388,6 +403,15 @@ def _config(rig, rng, phi, move1):
     r2 = r_J - R2 @ rig.K2_r
     sc = _loguniform(rng, 0.3, 3.0) if rig.nonunit else 1.0
     q[rig.body2.qDOF] = _pose_q(r2, R2, sc, flip=rng.random() < 0.5)
+    if getattr(rig, "exact", False):
+        k8 = int(round(phi / (0.25 * np.pi)))
+        if k8 % 2 == 0 and abs(phi - k8 * 0.25 * np.pi) < 1e-9:
+            # whole-number quaternion of the exact quarter / half / three-quarter turn about the joint axis (its rotation matrix
+            # has exact 0 / +-1 entries)
+            p0, s_ = [(1, 0), (1, 1), (0, 1), (-1, 1)][(k8 // 2) % 4]
+            P = np.zeros(4); P[0] = p0; P[1 + rig.axis] = s_
+            P *= float(int(rng.integers(1, 4))) * (1.0 if rng.random() < 0.5 else -1.0)
+            q[rig.body2.qDOF[3:]] = P
     rig.R1_now, rig.R2_now = R1, R2
     return q, A_IJ1[:, rig.axis]
 
@@ -611,6 +635,35 @@ def _run(spec, ctx):
         plan_stats(deltas, reset_at)
         drive(deltas, resets=reset_at)
 
+    if not state["bad"] and rig.topo != "movingframe-body" and rng.random() < 0.35:
+        # a deep copy of the system has its own joint: winding the ORIGINAL afterwards must not change what the copy reports
+        # (through l and through the post-processing alias angle), and querying the copy must not disturb the original
+        try:
+            joint.reset()
+            rig.R1_cur, rig.r1_cur = rig.R1_0, rig.r1_0
+            phi_c = float(rng.uniform(-1.2, 1.2))
+            q_c, _ = _config(rig, rng, phi_c, "fixed")
+            v0 = float(joint.l(rig.t, q_c[joint.qDOF]))
+            twin = system.deepcopy()
+            jt = [c for c in twin.contributions if getattr(c, "name", None) == joint.name and c.__class__ is joint.__class__][0]
+            turns = (1.0 if rng.random() < 0.5 else -1.0) * float(rng.uniform(1.2, 3.3))
+            phi_o = phi_c
+            for _ in range(int(abs(turns) * 2 * np.pi / 1.2) + 1):
+                phi_o += np.sign(turns) * 1.2
+                q_o, _ = _config(rig, rng, phi_o, "fixed")
+                v_o = float(joint.l(rig.t, q_o[joint.qDOF]))
+            v_copy_l = float(jt.l(rig.t, q_c[jt.qDOF])); v_copy_a = float(jt.angle(rig.t, q_c[jt.qDOF]))
+            v_o2 = float(joint.angle(rig.t, q_o[joint.qDOF]))
+        except Exception as e:
+            fail("Revolute.l", "angle query on a deep copy raised", {"error": f"{type(e).__name__}: {e}"[:300]})
+        else:
+            ctx.mon("repeat"); ctx.cls("deepcopy:original_wound_afterwards")
+            if abs(v0 - (rig.angle0 + phi_c)) > TOL or abs(v_copy_l - v0) > TOL or abs(v_copy_a - v0) > TOL:
+                fail("Revolute.angle", "a deep copy of the system reports another angle after the ORIGINAL joint was wound further",
+                     {"angle_at_copy_time": v0, "copy.l": v_copy_l, "copy.angle": v_copy_a, "turns_of_original_afterwards": turns})
+            elif abs(v_o - (rig.angle0 + phi_o)) > TOL or abs(v_o2 - v_o) > TOL:
+                fail("Revolute.angle", "querying a deep copy disturbed the angle tracked by the original joint",
+                     {"expected": rig.angle0 + phi_o, "before_copy_query": v_o, "after_copy_query": v_o2})
     if state["up"]:
         ctx.cls("crossing:Q4->Q1 (turn completed forwards)", state["up"])
     if state["down"]:
